@@ -342,6 +342,15 @@ def check_profile(model, where):
         raise Violation("profile-differs", "%s: geterr() = %r, the scoped "
                         "configuration model says %r" % (where, got,
                                                          model.state))
+    # what geterr() returns is a report, not the profile: editing it
+    # configures nothing
+    got["obsdup"] = "ignore" if got.get("obsdup") != "ignore" else "raise"
+    got["not-a-kind"] = "print"
+    again = geterr()
+    if again != model.state:
+        raise Violation("profile-differs", "%s: editing the mapping "
+                        "returned by geterr() changed the profile to %r" %
+                        (where, again))
     for k in KINDS:
         cur = geterrcall(k)
         want = _INITIAL_CB[k] if model.cb[k] == "default" else \
@@ -383,6 +392,9 @@ def run(program, model, rec, path, stats):
                                     "previous profile was %r" %
                                     (where, ret, old_model))
                 model.state = new
+                # the returned previous profile is the caller's to keep
+                ret["sampdup"] = "bogus"
+                ret.pop("empty", None)
         elif s == "seterrcall":
             cb = _INITIAL_CB.get(stmt["kind"]) if stmt["cb"] == "default" \
                 else CBS[stmt["cb"]]
@@ -422,6 +434,7 @@ def run(program, model, rec, path, stats):
             new = model.apply_kw(stmt["kw"])
             outer = dict(model.state)
             entered = False
+            left_by_boom = False
             try:
                 with errstate(**stmt["kw"]):
                     entered = True
@@ -438,7 +451,7 @@ def run(program, model, rec, path, stats):
                             stats["nested_exc_exits"] += 1
                         raise Boom()
             except Boom:
-                pass
+                left_by_boom = True
             except Violation:
                 raise
             except Exception as e:
@@ -446,6 +459,11 @@ def run(program, model, rec, path, stats):
                     raise Violation("errstate-raised", "%s raised %s: %s" %
                                     (where, type(e).__name__, e))
                 stats["refused"] += 1
+            if entered and new is not None and stmt["raise"] and \
+                    not left_by_boom:
+                raise Violation("exception-swallowed", "%s: an exception "
+                                "raised inside the block did not leave it" %
+                                where)
             model.state = outer
         else:
             raise ValueError(stmt)
